@@ -6,7 +6,7 @@ Proofs/CarveCompletes.lean).  `Model.Carve` mirrors sqlite_dissect/carving/carve
 (`carveUnallocated`, `carveFreeblocks`), carved_cell.py (`carvedRecord`, `tryCarve`),
 rollback_journal_carver.py (`carveJournal`), the carving part of version_history.py (`carveStep`,
 `carveHistory`) and interface.carve_table (`carveTable`), after the `fix:` commits 6eca1fa, 0b2b453,
-1323ad4, 4d9b308, 1c3b10a, 0d6a473, 56bb962.  A result `.error e` is a Python exception of class
+1323ad4, 4d9b308, 1c3b10a, 0d6a473, 56bb962, a784e20.  A result `.error e` is a Python exception of class
 `e` that escapes the carver; `tryCarve` is the `try … except (CellCarvingError, ValueError)` around
 one candidate.  `.error .outsideModel` is not a Python exception: a content size (a float in the
 code) left the range in which the model follows it exactly (2^53).
@@ -28,39 +28,40 @@ theorem completes_unallocated (sig : CarveSig) (h : Proofs.CarveCompletes.SigOk 
       carveUnallocated sig ps pn po rs data = .error .outsideModel := by
   exact Proofs.CarveCompletes.completes_unallocated sig h ps pn po rs data hwf hsize
 
-/-- Carving the freeblocks of a page returns for every table with at least two columns. -/
-theorem completes_freeblocks (sig : CarveSig) (h : Proofs.CarveCompletes.SigOk sig) (hcols : 2 ≤ sig.numberOfColumns)
+/-- Carving the freeblocks of a page returns, single-column tables included (since a784e20). -/
+theorem completes_freeblocks (sig : CarveSig) (h : Proofs.CarveCompletes.SigOk sig)
     (ps : Nat) (fbs : List FbIn) (hwf : ∀ fb ∈ fbs, fb.content.WF) (hsize : ∀ fb ∈ fbs, fb.content.size < 2 ^ 53) :
     (∃ cells, carveFreeblocks sig ps fbs = .ok cells) ∨ carveFreeblocks sig ps fbs = .error .outsideModel := by
-  exact Proofs.CarveCompletes.completes_freeblocks sig h hcols ps fbs hwf hsize
+  exact Proofs.CarveCompletes.completes_freeblocks sig h ps fbs hwf hsize
 
-/-- non-vacuity: a signature satisfying `SigOk` (and the witness that `hcols` is needed) -/
+/-- FULL STATEMENT (a theorem since a784e20): for every signature the carver can build its two
+patterns from and every byte string, carving the string as an unallocated region and as the content
+of a freeblock returns — no Python exception escapes.  The only non-result is the model's own
+`outsideModel`: a content size (a float in the code) beyond 2^53, where the model stops following. -/
+theorem completes (sig : CarveSig) (h : Proofs.CarveCompletes.SigOk sig) (ps pn po rs : Nat) (data : Buf)
+    (hwf : data.WF) (hsize : data.size < 2 ^ 53) :
+    ((∃ cells, carveUnallocated sig ps pn po rs data = .ok cells) ∨
+       carveUnallocated sig ps pn po rs data = .error .outsideModel) ∧
+    (∀ (fbStart byteSize : Nat),
+      (∃ cells, carveFreeblocks sig ps [⟨pn, 0, fbStart, fbStart + 4, byteSize, data, po⟩] = .ok cells) ∨
+       carveFreeblocks sig ps [⟨pn, 0, fbStart, fbStart + 4, byteSize, data, po⟩] = .error .outsideModel) := by
+  exact Proofs.CarveCompletes.completes sig h ps pn po rs data hwf hsize
+
+/-- non-vacuity: a signature satisfying `SigOk`; it is the single-column input (freeblock content
+`81`) that escaped with `ord()`'s TypeError before a784e20 and now carves. -/
 theorem sigOk_nonvacuous :
     Proofs.CarveCompletes.SigOk Proofs.CarveRecall.sig12 ∧
-      carveFreeblocks Proofs.CarveRecall.sig12 1024 [⟨2, 0, 200, 204, 5, Buf.ofList [0x81], 1024⟩] = .error .typeError := by
-  exact Proofs.CarveCompletes.single_column_typeError_witness
+      ∃ cells, carveFreeblocks Proofs.CarveRecall.sig12 1024 [⟨2, 0, 200, 204, 5, Buf.ofList [0x81], 1024⟩] = .ok cells ∧
+        cells.length = 1 := by
+  exact Proofs.CarveCompletes.fixed_single_column_witness
 
-/-- Single-column tables (open finding C08-07): the only Python exception class that can still leave
-`carve_freeblocks` is TypeError — `ord(b'')` in `decode_varint(data, start - 1)` for the empty partial
-match at the very end of a freeblock whose last byte has its high bit set. -/
-theorem freeblocks_single_column_escape (sig : CarveSig) (h : Proofs.CarveCompletes.SigOk sig) (ps : Nat)
-    (fbs : List FbIn) (hwf : ∀ fb ∈ fbs, fb.content.WF) (hsize : ∀ fb ∈ fbs, fb.content.size < 2 ^ 53)
-    (e : PyErr) (he : carveFreeblocks sig ps fbs = .error e) : e = .outsideModel ∨ e = .typeError := by
-  exact Proofs.CarveCompletes.freeblocks_single_column_escape sig h ps fbs hwf hsize e he
+/-- The minimal input of the last repaired escape (C08-07, `ord(b'')` in `decode_varint`; single
+NULL column, freeblock content `02 c0`) now carves (a784e20). -/
+theorem fixed_ord_empty :
+    ∃ cells, carveFreeblocks sig0 65536 [⟨2, 0, 8, 12, 6, Buf.ofList [2, 0xc0], 65536⟩] = .ok cells ∧ cells.length = 2 := by
+  exact Proofs.Carve.fixed_ord_empty
 
-/-- Hence the unrestricted statement (every signature, every byte string, unallocated region and
-freeblock) is still false of the code … -/
-def FullStatement : Prop := CompletesFull
-
-theorem completes_counterexample : ¬ FullStatement := by
-  exact Proofs.Carve.completes_counterexample
-
-/-- … by this input: single NULL column, freeblock content `02 c0`. -/
-theorem escapes_ord_empty :
-    carveFreeblocks sig0 65536 [⟨2, 0, 8, 12, 6, Buf.ofList [2, 0xc0], 65536⟩] = .error .typeError := by
-  exact Proofs.Carve.witness_ord_empty
-
-/-- The minimal inputs of the four repaired escapes now carve: a full match at offset 0 followed by
+/-- So do the minimal inputs of the four escapes repaired earlier: a full match at offset 0 followed by
 another (`int >= None`, 6eca1fa) … -/
 theorem fixed_int_ge_none :
     ∃ cells, carveUnallocated sig11 1024 2 1024 100 dataNone = .ok cells ∧ cells.length = 2 := by
